@@ -40,6 +40,15 @@ func (e StdEng) Map(fn interface{}, a Tensor, opts ...FuncOpt) (retVal Tensor, e
 		if a.Size() != reuse.Size() {
 			return nil, errors.Errorf(shapeMismatch, a.Shape(), reuse.Shape())
 		}
+		// the function is applied in place to the reuse tensor: it has to hold a's values first
+		if ad, ok := a.(DenseTensor); ok && !incr && reuse.Uintptr() != a.Uintptr() {
+			if err = reuseCheckShape(reuse, a.Shape()); err != nil {
+				return nil, errors.Wrapf(err, "Reuse shape check failed")
+			}
+			if _, err = copyDenseIter(reuse, ad, nil, nil); err != nil {
+				return nil, errors.Wrap(err, "Failed Map()")
+			}
+		}
 	}
 
 	// PREP DATA
